@@ -60,10 +60,15 @@ Restrict(g, D, mp) == LET HD == Heavy(g, D) IN
                       [atoms |-> { [a EXCEPT !.n = mp[a.n]] : a \in { g.atoms[k] : k \in { j \in 1..Len(g.atoms) : g.atoms[j].n \in HD } } },
                        bonds |-> { {<<mp[b[1]], b[3]>>, <<mp[b[2]], b[3]>>} : b \in { g.bonds[k] : k \in { j \in 1..Len(g.bonds) : g.bonds[j][1] \in HD /\ g.bonds[j][2] \in HD } } }]
 Ident(D) == [n \in D |-> n]
-Equivariant(f, a, b) ==
-  LET mp == MapOf(f)  D == DOMAIN mp  E == { mp[n] : n \in D } IN
+(* asym: no two atoms of the input are constitutionally equivalent.  Where some are, an operation that has to pick one of them (the
+   ring atom of a cyclopentadienide that carries the charge) may pick another one in the twin: the results are then the same molecule
+   up to a symmetry, which the canonical string decides; number by number they are compared only for inputs without symmetry. *)
+\* (a class-wise comparison would be unsound: the operation may remove the very attribute that made two atoms different)
+Equivariant(f, a, b, asym, cls) ==
+  LET mp == MapOf(f)  D == DOMAIN mp  E == { mp[n] : n \in D }
+  IN
   /\ a.sa = b.sa
-  /\ Restrict(a.ga, D, mp) = Restrict(b.ga, E, Ident(E))
+  /\ (asym => Restrict(a.ga, D, mp) = Restrict(b.ga, E, Ident(E)))
 
 (* tautomer enumeration: every form is a rearrangement of the input up to protons moved by neutralisation, all forms are different *)
 FormLaws(pre, forms) ==
